@@ -177,6 +177,7 @@ func rulesC16(c *Ctx) {
 	}
 	skipsetRule(c, "C16.skipset", tt)
 	crfoldRule(c, "C16.crfold")
+	commentsRule(c, "C16.comments")
 	n := probeBalance(c, "C16.noleak")
 	c.Floor("C16.noleak", n, 120)
 
